@@ -61,17 +61,22 @@ def theorems(path, only=None, indent="  "):
 
 def main():
     pid, header = sys.argv[1], open(sys.argv[2]).read()
-    body, prints, top = [], [], []
+    body, prints, top, topr, rmods = [], [], [], [], []
     for spec in sys.argv[3:]:
+        is_topr = spec.startswith("topR:")        # top-level theorems stated in R_scope (real arithmetic)
+        if is_topr:
+            spec = "top:" + spec[5:]
         is_top = spec.startswith("top:")          # theorems stated outside any section: emitted after End
         if is_top:
             spec = spec[4:]
         path, _, only = spec.partition(":")
         only = set(only.split(",")) if only else None
+        if is_topr:
+            rmods.append(path[:-2].replace("/", "."))
         if is_top:
             for name, binders, stmt, names in theorems(path, only, indent=""):
                 tn = "%s_%s" % (pid, name)
-                top.append("Theorem %s %s :%s.\nProof. exact (%s). Qed.\n" % (tn, binders, stmt, " ".join([name] + names)))
+                (topr if is_topr else top).append("Theorem %s %s :%s.\nProof. exact (%s). Qed.\n" % (tn, binders, stmt, " ".join([name] + names)))
                 prints.append("Print Assumptions %s." % tn)
             continue
         for name, binders, stmt, names in theorems(path, only):
@@ -85,6 +90,11 @@ def main():
     if top:
         print("Local Open Scope nat_scope.\n")
     print("\n".join(top))
+    if topr:
+        # imported here, not in the header: Base.NumR registers another NumOps instance, which must not change how the
+        # statements above resolve their implicit number type
+        print("From Coq Require Import Reals.\nFrom Demes Require Import Base.NumR Model.SizeAt Proofs.SizeBetweenR %s.\nLocal Open Scope R_scope.\n" % " ".join(rmods))
+        print("\n".join(topr))
     print("\n".join(prints))
 
 
